@@ -113,6 +113,9 @@ pub fn worker_case(line: &str) -> String {
             None => "ERR bad-input".into(),
         };
     }
+    if let Some(rest) = line.strip_prefix("syn ") {
+        return syn_case(rest);
+    }
     if let Some(rest) = line.strip_prefix("seq ") {
         let (a, b) = match rest.split_once(" || ") {
             Some(x) => x,
@@ -145,6 +148,152 @@ pub fn worker_case(line: &str) -> String {
         Some(r) => format!("R {} {} {}", hex(&r[0]), hex(&r[1]), hex(&r[2])),
         None => "skipped-panic".into(),
     }
+}
+
+
+// ---------------------------------------------------------------- syntect stage
+// The syntax highlighter plugin (src/plugins/syntect.rs) is part of the property's subject: one
+// adapter is shared by every call of a worker process (so state kept inside the adapter across
+// documents shows), by the racing threads of one case, and is compared with a fresh adapter.
+use comrak::plugins::syntect::{SyntectAdapter, SyntectAdapterBuilder};
+use std::sync::OnceLock;
+
+static SHARED_ADAPTERS: OnceLock<[SyntectAdapter; 2]> = OnceLock::new();
+
+fn new_adapter(mode: usize) -> SyntectAdapter {
+    if mode == 0 {
+        SyntectAdapter::new(Some("base16-ocean.dark"))
+    } else {
+        SyntectAdapterBuilder::new().css().build()
+    }
+}
+
+fn shared_adapter(mode: usize) -> &'static SyntectAdapter {
+    &SHARED_ADAPTERS.get_or_init(|| [new_adapter(0), new_adapter(1)])[mode]
+}
+
+fn syn_render(o: &Opts, md: &str, ad: &SyntectAdapter) -> Result<Vec<u8>, String> {
+    let c = o.to_comrak();
+    let r = std::panic::catch_unwind(std::panic::AssertUnwindSafe(|| {
+        let mut plugins = comrak::Plugins::default();
+        plugins.render.codefence_syntax_highlighter = Some(ad);
+        comrak::markdown_to_html_with_plugins(md, &c, &plugins).into_bytes()
+    }));
+    r.map_err(|_| "panic".to_string())
+}
+
+/// `syn <mode> <reps> <threads> <doc input>`: `ok <hex html>` or `differs\t<kind>\t<sig>\t<detail>`.
+fn syn_case(rest: &str) -> String {
+    let mut it = rest.splitn(4, ' ');
+    let mode: usize = it.next().and_then(|x| x.parse().ok()).unwrap_or(0).min(1);
+    let reps: usize = it.next().and_then(|x| x.parse().ok()).unwrap_or(1);
+    let threads: usize = it.next().and_then(|x| x.parse().ok()).unwrap_or(0);
+    let (o, md) = match it.next().and_then(Src::parse_input) {
+        Some((o, Src::Doc(md))) => (o, md),
+        _ => return "ERR bad-input".into(),
+    };
+    let fresh_ad = new_adapter(mode);
+    let fresh = match syn_render(&o, &md, &fresh_ad) {
+        Ok(r) => r,
+        Err(_) => return "skipped-panic".into(),
+    };
+    let sig = |a: &[u8], b: &[u8]| sig_for(0, a, b).replace("html-", "syntect-");
+    let shared = shared_adapter(mode);
+    for i in 0..reps {
+        match syn_render(&o, &md, shared) {
+            Ok(r) if r == fresh => {}
+            Ok(r) => {
+                let kind = if i == 0 { "syntect-depends-on-earlier-document" } else { "syntect-repeat-call-differs" };
+                return format!("differs\t{}\t{}\t{}", kind, sig(&fresh, &r), diff_window(&fresh, &r));
+            }
+            Err(_) => return "differs\tsyntect-panics-after-earlier-document\tany\tpanic with the shared adapter, none with a fresh one".into(),
+        }
+        match syn_render(&o, &md, &fresh_ad) {
+            Ok(r) if r == fresh => {}
+            Ok(r) => return format!("differs\tsyntect-repeat-call-differs\t{}\t{}", sig(&fresh, &r), diff_window(&fresh, &r)),
+            Err(_) => return "skipped-panic".into(),
+        }
+    }
+    if threads > 0 {
+        let barrier = std::sync::Barrier::new(threads);
+        let results: Vec<Result<Vec<u8>, String>> = std::thread::scope(|sc| {
+            let hs: Vec<_> = (0..threads)
+                .map(|_| {
+                    let (o, md, barrier) = (&o, &md, &barrier);
+                    sc.spawn(move || {
+                        barrier.wait();
+                        syn_render(o, md, shared)
+                    })
+                })
+                .collect();
+            hs.into_iter().map(|h| h.join().unwrap_or_else(|_| Err("thread panicked".into()))).collect()
+        });
+        for r in results.into_iter().flatten() {
+            if r != fresh {
+                return format!("differs\tsyntect-thread-call-differs\t{}\t{}", sig(&fresh, &r), diff_window(&fresh, &r));
+            }
+        }
+    }
+    format!("ok {}", hex(&fresh))
+}
+
+const SYN_LANGS: [&str; 14] = ["rust", "toml", "text", "py", "python", "c", "", "rust extra=1", "nope", "js", "ts", "console", "html", "RUST"];
+const SYN_BODIES: [&str; 8] = ["fn main() { let x = 1; }\n", "a = \"b\"\n[t]\nk = 1\n", "plain words\n", "def f(x):\n    return x + 1\n", "<p class=\"x\">&amp;</p>\n", "int main(void) { return 0; }\n", "\n", "x < y && z > \"q\"\n"];
+
+fn gen_syn_doc(r: &mut Rng) -> String {
+    let mut d = String::new();
+    let n = 1 + r.below(3);
+    for _ in 0..n {
+        if r.chance(1, 3) {
+            d.push_str("para *text*\n\n");
+        }
+        let fence = if r.chance(1, 4) { "~~~" } else { "```" };
+        d.push_str(fence);
+        if r.chance(1, 5) {
+            d.push(' ');
+        }
+        d.push_str(SYN_LANGS[r.below(SYN_LANGS.len())]);
+        d.push('\n');
+        d.push_str(SYN_BODIES[r.below(SYN_BODIES.len())]);
+        d.push_str(fence);
+        d.push_str("\n\n");
+    }
+    d
+}
+
+/// Footnote graphs: several definitions, the body referring to some of them, definitions referring to
+/// further footnotes (first references made from inside other footnotes, chains, cycles, shared
+/// targets), unreferenced and duplicate definitions. Numbering and section order of such documents
+/// go through the footnote map.
+fn gen_footnote_graph(r: &mut Rng) -> String {
+    const L: [&str; 10] = ["a", "b", "c", "d", "e", "f", "g", "h", "A", "x y"];
+    let k = 3 + r.below(7);
+    let mut d = String::new();
+    let nbody = 1 + r.below(4);
+    d.push_str("Body");
+    for _ in 0..nbody {
+        d.push_str(&format!(" text[^{}]", L[r.below(k)]));
+    }
+    d.push_str(".\n\n");
+    let mut order: Vec<usize> = (0..k).collect();
+    for i in (1..order.len()).rev() {
+        order.swap(i, r.below(i + 1));
+    }
+    for &i in &order {
+        d.push_str(&format!("[^{}]: note {}", L[i], i));
+        for _ in 0..r.below(3) {
+            d.push_str(&format!(" see[^{}]", L[r.below(k)]));
+        }
+        d.push('\n');
+        if r.chance(1, 5) {
+            d.push_str(&format!("\n    [^{}]: nested\n", L[r.below(k)]));
+        }
+        d.push('\n');
+    }
+    if r.chance(1, 3) {
+        d.push_str(&format!("More[^{}] and[^{}].\n", L[r.below(k)], L[r.below(k)]));
+    }
+    d
 }
 
 fn source_audit(rep: &mut Report) {
@@ -266,8 +415,11 @@ pub fn run(cfg: &Cfg, rep: &mut Report) {
     let mut cases: Vec<(Opts, Src, String)> = vec![];
     let mut lines_w: Vec<String> = vec![];
     for i in 0..n {
-        let (src, name) = gen_case(&mut rng, &corpus);
+        let (src, name) = if i % 5 == 4 { (Src::Doc(gen_footnote_graph(&mut rng)), "footnote-graph") } else { gen_case(&mut rng, &corpus) };
         let mut o = Opts::random(&mut rng);
+        if name == "footnote-graph" {
+            o.set("footnotes", true);
+        }
         if rng.chance(1, 2) {
             o.set("github_pre_lang", rng.chance(1, 2)).set("full_info_string", true).set("sourcepos", rng.chance(2, 3));
         }
@@ -382,9 +534,54 @@ pub fn run(cfg: &Cfg, rep: &mut Report) {
         }
     }
     rep.add("sequence-comparisons", seqs.len() as u64);
+    // syntect: documents with fenced code blocks in known / unknown / empty languages, rendered
+    // through a highlighter shared by all cases of a worker, by racing threads, and a fresh one
+    let nsyn = if cfg.tier_thorough { 6000 } else if cfg.full { 1500 } else { 400 };
+    let mut syn_lines: Vec<String> = vec![];
+    for i in 0..nsyn {
+        let mut o = Opts::default();
+        o.set("github_pre_lang", rng.chance(1, 2)).set("full_info_string", rng.chance(1, 2)).set("sourcepos", rng.chance(1, 3)).set("unsafe_", rng.chance(1, 4));
+        let md = gen_syn_doc(&mut rng);
+        let threads = if i % 8 == 0 { 8 } else { 0 };
+        syn_lines.push(format!("syn {} 3 {} {}", rng.below(2), threads, Src::Doc(md).input(&o)));
+    }
+    // few workers, many cases each: state left in the shared adapter by earlier documents is the point
+    let outs = crate::worker::run_cases("C05", &syn_lines, std::time::Duration::from_secs(60), 4);
+    for (l, got) in syn_lines.iter().zip(outs.iter()) {
+        rep.s_evals += 1;
+        match got {
+            crate::worker::Outcome::Reply(r, _) if r.starts_with("ok ") => rep.count("syntect-ok"),
+            crate::worker::Outcome::Reply(r, _) if r == "skipped-panic" => rep.count("skipped-panic"),
+            crate::worker::Outcome::Reply(r, _) => {
+                let f: Vec<&str> = r.split('\t').collect();
+                match f.as_slice() {
+                    ["differs", kind, sig, detail] => rep.fail(kind, sig, l.clone(), detail.to_string()),
+                    _ => rep.notes.push(format!("unexpected syntect worker reply: {}", &r[..r.len().min(80)])),
+                }
+            }
+            crate::worker::Outcome::Hang(ms) => rep.fail("syntect-render-hangs", "any", l.clone(), format!("no answer within {} ms", ms)),
+            crate::worker::Outcome::Died { how, .. } => rep.fail("syntect-render-dies", "any", l.clone(), how.clone()),
+        }
+    }
+    rep.add("syntect-comparisons", syn_lines.len() as u64);
 }
 
 pub fn replay(kind: &str, input: &str) -> Result<Option<String>, String> {
+    if input.starts_with("syn ") {
+        // the failing case alone does not reproduce a dependence on earlier documents: replay it after a warm-up
+        let warm = format!("syn 0 1 0 {}", Src::Doc("```rust\nfn main() {}\n```\n".into()).input(&Opts::default()));
+        let warm1 = format!("syn 1 1 0 {}", Src::Doc("```rust\nfn main() {}\n```\n".into()).input(&Opts::default()));
+        let outs = crate::worker::run_cases("C05", &[warm, warm1, input.to_string(), input.to_string()], std::time::Duration::from_secs(60), 1);
+        for o in &outs[2..] {
+            match o {
+                crate::worker::Outcome::Reply(l, _) if l.starts_with("differs\t") => return Ok(Some(l.replace('\t', " "))),
+                crate::worker::Outcome::Reply(_, _) => {}
+                crate::worker::Outcome::Hang(ms) => return Ok(Some(format!("{}: hang after {} ms", kind, ms))),
+                crate::worker::Outcome::Died { how, .. } => return Ok(Some(format!("{}: worker died: {}", kind, how))),
+            }
+        }
+        return Ok(None);
+    }
     if input.starts_with("seq ") {
         let outs = crate::worker::run_cases("C05", &[input.to_string()], std::time::Duration::from_secs(20), 1);
         return Ok(match &outs[0] {
